@@ -866,21 +866,24 @@ def gen_c27_server(r, cid, thorough):
         c.c("quietrx 1")
     bodytok = "@%dx42" % r.choice([200000, 600000, 1500000]) if big else hx(b"response-body")
     mode = r.choice(["reply", "reply", "hold-reply", "chunked", "chunked-hold", "error"])
+    # the handler is registered for its path or as the generic callback: the two dispatch branches of
+    # evhttp_handle_request hand the request over separately (seed C27-4 forgot one of them)
+    reg = "cb 0 0 %s" % hx(b"/x") if r.random() < 0.5 else "gencb 0 0"
     if mode == "reply":
-        c.c("cb 0 0 %s" % hx(b"/x"))
+        c.c(reg)
         c.c("rp 0 reply 200 %s %s" % (hx(b"OK"), bodytok))
     elif mode == "hold-reply":
-        c.c("cb 0 0 %s" % hx(b"/x"))
+        c.c(reg)
         c.c("rp 0 hold")
         c.c("rp 0 reply 200 %s %s" % (hx(b"OK"), bodytok))
     elif mode == "chunked":
-        c.c("cb 0 0 %s" % hx(b"/x"))
+        c.c(reg)
         c.c("rp 0 start 200 %s" % hx(b"OK"))
         c.c("rp 0 chunk %s" % bodytok)
         c.c("rp 0 chunk %s" % hx(b"tail"))
         c.c("rp 0 end")
     elif mode == "chunked-hold":
-        c.c("cb 0 0 %s" % hx(b"/x"))
+        c.c(reg)
         c.c("rp 0 start 200 %s" % hx(b"OK"))
         c.c("rp 0 chunk %s" % bodytok)
         c.c("rp 0 hold")
@@ -888,9 +891,10 @@ def gen_c27_server(r, cid, thorough):
         c.c("rp 0 hold")
         c.c("rp 0 end")
     else:
-        c.c("cb 0 0 %s" % hx(b"/x"))
+        c.c(reg)
         c.c("rp 0 error 503 -")
     m["mode"] = mode
+    m["generic"] = int(reg.startswith("gencb"))
     m["big"] = big
     npeers = r.choice([1, 1, 2, 3])
     peers = []
